@@ -18,6 +18,8 @@ package cli
 //@   let OPEN = "invoke:gopki/generator/db.Database.Open"
 //@   atcall @C18,C10 gopki/generator/db.PlanBulkUpdate callres("invoke:gopki/generator/db.Database.Open", 1, 0) == nil
 //@   atcall @C11 gopki/generator/db.PlanBulkUpdate strat != 0 && strat == ((if deref(ctx.genAll) then 16 else 0) | (if deref(ctx.genMissing) then 1 else 0) | (if deref(ctx.genExpired) then 2 else 0) | (if deref(ctx.genNewerConfig) then 4 else 0) | (if deref(ctx.genChanged) then 8 else 0))
+// (C18: a broken hierarchy makes the command fail whatever the flags: it ends with status 0 only after Open accepted the directory)
+//@   atcall @C18 os.Exit c == 0 ==> called("invoke:gopki/generator/db.Database.Open", 1) && callres("invoke:gopki/generator/db.Database.Open", 1, 0) == nil
 //@   atcall @C18,C10 gopki/generator/db.BulkUpdate callres("invoke:gopki/generator/db.Database.Open", 1, 0) == nil && callres("gopki/generator/db.PlanBulkUpdate", 1, 1) == nil
 //@   atcall @C10 gopki/generator/db.BulkUpdate !called("(*bufio.Reader).ReadString", 1) ==> !anyRepl(seq(changeList), len(changeList))
 //@   atcall @C10 gopki/generator/db.BulkUpdate called("(*bufio.Reader).ReadString", 1) ==> (callres("(*bufio.Reader).ReadString", 1, 1) == nil && toLower(trimSpace(callres("(*bufio.Reader).ReadString", 1, 0))) == "y")
